@@ -17,11 +17,45 @@ def oracle(p):
     spec = 65535
     valid = True
     prev = None
+    # per stream, recomputed from the wire: acknowledged INITIAL_WINDOW_SIZE now in force + WINDOW_UPDATE(sid) emitted - DATA received
+    upd, got, skip, svalid = {}, {}, set(), True
+
+    def acked_iws(settings_part):
+        for k, q in settings_part:
+            if k == 4:
+                return 65535 if q[0] == [] else q[0][0]
+        return 65535
     for i, (op, parts) in enumerate(zip(p['ops'], p['parts'])):
         if op[0] == 'Drain':
             prev = parts
             continue
         emitted = sum(fr[2] for fr in frames[i] if fr[0] == 8 and fr[1] == 0)
+        for fr in frames[i]:
+            if fr[0] == 8 and fr[1] != 0:
+                upd[fr[1]] = upd.get(fr[1], 0) + fr[2]
+        if op[0] == 'Receive':
+            if _conn.ok(parts) and prev is not None and not any(e[0][0] == 'GoAway' for e in op[1]):
+                pst = {e[0]: e[1] for e in prev[8]}
+                for e in op[1]:
+                    if e[0][0] == 'Data':
+                        if pst.get(e[0][1]) in (3, 5) and len(op[1]) == 1:
+                            got[e[0][1]] = got.get(e[0][1], 0) + e[0][3]
+                        else:
+                            skip.add(e[0][1])
+            else:
+                svalid = False
+        if svalid and parts[3] != 3:
+            iws = acked_iws(parts[11])
+            st = {e[0]: e[1] for e in parts[8]}
+            for srow in parts[9]:
+                sid = srow[0]
+                if sid in skip or st.get(sid) in (None, 6):
+                    continue
+                want = iws + upd.get(sid, 0) - got.get(sid, 0)
+                if srow[2] != want:
+                    bad.append({'rule': 'advertised stream window differs from the acknowledged INITIAL_WINDOW_SIZE + WINDOW_UPDATEs emitted - DATA received',
+                                'step': i, 'detail': {'stream': sid, 'state': st.get(sid), 'reported': srow[2], 'recomputed': want, 'op': repr(op)[:120]}})
+                    skip.add(sid)
         if op[0] == 'Receive':
             if _conn.ok(parts) and not any(e[0][0] == 'GoAway' for e in op[1]):
                 for e in op[1]:
